@@ -242,6 +242,8 @@ Local Notation frame_all := (Frame.frame_all K).
 Local Notation pp_step := (Frame.pp_step rs_encode K).
 Local Notation pp_run := (Frame.pp_run rs_encode K).
 Local Notation stage1_run := (Frame.stage1_run rs_encode).
+Local Notation stage1w := (Frame.stage1w rs_encode).
+Local Notation stage1w_run := (Frame.stage1w_run rs_encode).
 Local Notation uses_nonce := Frame.uses_nonce.
 
 Lemma app_inj_len {A} (a c b d : list A) : length a = length c -> a ++ b = c ++ d -> a = c.
@@ -281,15 +283,15 @@ Qed.
 
 (* one iteration of postProcess consumes exactly one nonce per packet it emits - the data or
    OOB packet and every parity packet - and the i-th packet carries the i-th of them *)
-Theorem fresh_nonce_each c fe r now nonces :
-  let '(fe1, b, ps) := stage1 fe r now in
+Theorem fresh_nonce_each c fe wire r now nonces :
+  let '(fe1, b, ps) := stage1w wire (aead_extra K c) fe r now in
   let bodies := b :: ps in
   (uses_nonce c = true -> (length bodies <= length nonces)%nat ->
-     pp_step c fe r now nonces =
+     pp_step c fe wire r now nonces =
        (fe1, map (frame_pair c) (combine nonces bodies), skipn (length bodies) nonces)) /\
-  (c = CNone -> pp_step c fe r now nonces = (fe1, bodies, nonces)).
+  (c = CNone -> pp_step c fe wire r now nonces = (fe1, bodies, nonces)).
 Proof using Type.
-  unfold Frame.pp_step. destruct (stage1 fe r now) as [[fe1 b] ps]. cbn zeta. split.
+  unfold Frame.pp_step. destruct (stage1w wire (aead_extra K c) fe r now) as [[fe1 b] ps]. cbn zeta. split.
   - intros Hu Hl. rewrite frame_all_spec by assumption. reflexivity.
   - intros ->. rewrite frame_all_none. reflexivity.
 Qed.
@@ -307,15 +309,16 @@ Proof using Type.
 Qed.
 
 Lemma pp_run_spec c : uses_nonce c = true -> forall rs fe nonces,
-  (length (run_bodies (snd (stage1_run fe rs))) <= length nonces)%nat ->
+  (length (run_bodies (snd (stage1w_run (aead_extra K c) fe rs))) <= length nonces)%nat ->
   pp_run c fe rs nonces =
-    (fst (stage1_run fe rs), map (frame_pair c) (combine nonces (run_bodies (snd (stage1_run fe rs))))).
+    (fst (stage1w_run (aead_extra K c) fe rs),
+     map (frame_pair c) (combine nonces (run_bodies (snd (stage1w_run (aead_extra K c) fe rs))))).
 Proof using Type.
-  intros Hu. induction rs as [|[r now] rs IH]; intros fe nonces Hl.
+  intros Hu. induction rs as [|[[r now] wire] rs IH]; intros fe nonces Hl.
   - cbn. destruct nonces; reflexivity.
-  - cbn [Frame.pp_run Frame.stage1_run] in *. unfold Frame.pp_step.
-    destruct (stage1 fe r now) as [[fe1 b] ps].
-    destruct (stage1_run fe1 rs) as [fe2 l] eqn:Erun.
+  - cbn [Frame.pp_run Frame.stage1w_run] in *. unfold Frame.pp_step.
+    destruct (stage1w wire (aead_extra K c) fe r now) as [[fe1 b] ps].
+    destruct (stage1w_run (aead_extra K c) fe1 rs) as [fe2 l] eqn:Erun.
     cbn [snd fst] in *. unfold run_bodies in Hl. cbn [map concat fst snd] in Hl.
     fold (run_bodies l) in Hl. rewrite app_length in Hl.
     rewrite frame_all_spec by (try assumption; lia).
@@ -342,11 +345,11 @@ Theorem distinct c fe rs nonces :
   uses_nonce c = true ->
   Forall (fun n => blen n = nonce_len c) nonces ->
   NoDup nonces ->
-  (length (run_bodies (snd (stage1_run fe rs))) <= length nonces)%nat ->
+  (length (run_bodies (snd (stage1w_run (aead_extra K c) fe rs))) <= length nonces)%nat ->
   NoDup (snd (pp_run c fe rs nonces)).
 Proof using dec_enc.
   intros Hu Hlen Hnd Hl. rewrite pp_run_spec by assumption. cbn [snd].
-  set (bodies := run_bodies (snd (stage1_run fe rs))) in *.
+  set (bodies := run_bodies (snd (stage1w_run (aead_extra K c) fe rs))) in *.
   (* restrict to the nonces actually used so that the length hypothesis applies to all of them *)
   assert (Hgen : forall ns bs, Forall (fun n => blen n = nonce_len c) ns -> NoDup ns ->
                  NoDup (map (frame_pair c) (combine ns bs))).
